@@ -1,5 +1,6 @@
 // C06: operation sequences on the real NiHeader block table (through a real NifFile).
 #include "harness.hpp"
+#include <cstdlib>
 #include "NifFile.hpp"
 #include <algorithm>
 #include <fstream>
@@ -152,7 +153,15 @@ std::string graphSig(NifFile& nif) {
 	return o.str();
 }
 
+std::string runInner(const Args& a);
+// every sequence in a child of its own (VH_C06_NOFORK=1: in this process, so that a sanitizer report reaches stderr — used to
+// fetch the report of a sequence that failed)
 std::string run(const Args& a) {
+	if (getenv("VH_C06_NOFORK"))
+		return runInner(a);
+	return forked([&]() { return runInner(a); }, 60);
+}
+std::string runInner(const Args& a) {
 	World w;
 	if (!initWorld(w, a[1]))
 		return "load-failed";
